@@ -672,6 +672,45 @@ func (g *Gen) build(kind string) []int64 {
 				rels = append(rels, [2]int64{int64(c), g.pickTarget(inv)})
 			}
 		}
+		// malformed calls (at the stream's misuse rate): a target for a plain component the entity has,
+		// a relation component named twice (the second assignment restoring the current target or not),
+		// a relation component the entity lacks
+		if len(have) > 0 && g.R.Chance(g.St.Invalid) {
+			switch g.R.Intn(3) {
+			case 0:
+				for _, c := range have {
+					if !g.isRel(c) {
+						rels = append(rels, [2]int64{int64(c), g.pickTarget(false)})
+						break
+					}
+				}
+			case 1:
+				if len(rels) > 0 {
+					first := rels[0]
+					cur := int64(-1)
+					if e := int(h); g.aliveOrNil(h) {
+						tg := g.S.W.Unsafe().GetRelation(g.S.Issued[e], g.S.IDs[first[0]])
+						for i, x := range g.S.Issued {
+							if x == tg {
+								cur = int64(i)
+							}
+						}
+					}
+					if g.R.Chance(60) {
+						rels = append(rels, [2]int64{first[0], cur})
+					} else {
+						rels = append(rels, [2]int64{first[0], g.pickTarget(false)})
+					}
+				}
+			default:
+				for c := range g.S.IDs {
+					if g.isRel(c) && !contains(have, c) {
+						rels = append(rels, [2]int64{int64(c), g.pickTarget(false)})
+						break
+					}
+				}
+			}
+		}
 		if len(rels) == 0 && !inv {
 			return nil
 		}
